@@ -267,9 +267,22 @@ func genCSVCase(t *rapid.T) csvCase {
 
 	// declared types
 	uniqueLegal := hdrKind == "plain" || hdrKind == "headers-option"
+	// types may also be declared for a column under the alias it gets for its missing name
+	typeNames := names
+	if hdrKind == "missing" && c.conf.MissingAlias != "" {
+		typeNames = append([]string(nil), names...)
+		uniqueLegal = true
+		for i, n := range typeNames {
+			if n == "" {
+				typeNames[i] = c.conf.MissingAlias
+			} else if n == c.conf.MissingAlias {
+				uniqueLegal = false // the alias collides with a real name: renaming (by an unspecified scheme) or an error
+			}
+		}
+	}
 	if uniqueLegal && rapid.IntRange(0, 2).Draw(t, "types") == 0 {
 		c.conf.Types = map[string]string{}
-		for i, n := range names {
+		for i, n := range typeNames {
 			switch rapid.IntRange(0, 7).Draw(t, "decl") {
 			case 0:
 				c.conf.Types[n] = []string{"int", "float", "bool", "string", "string"}[profiles[i]]
